@@ -496,14 +496,19 @@ def make_seeds(f, S, dom, bump=None):
         if "allowedCharacter" in dom[sec] and sec != "tag":
             # appended, not swapped: an existing value may be what permits a character of the entry's own name
             have = list(at["allowedCharacter"]) if isinstance(at.get("allowedCharacter"), list) else []
-            ev(p, "badAllowedCharacter", "unknown", "allowedCharacter", have + ["fooChars"], val="fooChars")
+            # an unknown class name; for every other position a known one in ANOTHER letter case (names are case-sensitive)
+            badc = ["fooChars", "Digits", "TEXT", "Letters"][k % 4]
+            ev(p, "badAllowedCharacter", "unknown", "allowedCharacter", have + [badc], val=badc)
             ev(p, "badAllowedCharacter", "ctl-letters", "allowedCharacter", have + ["letters"], val="letters")
         # --- inLibrary, hedId
         if "inLibrary" in dom[sec]:
             if sec == "tag" and (p["short"].casefold() in rooted_bases or p["name"].casefold() in rooted_bases):
                 skipped["foreignInLibrary: standard tag that a library subtree is rooted at (the loader then refuses the schema: second fault)"] += 1
             else:
-                ev(p, "foreignInLibrary", "foreign", "inLibrary", ["foolib"], group="inlib")
+                # a foreign library name; for every other position one that is a PART of the schema's own library name
+                own = f.library or ""
+                foreign = (own[1:] if k % 4 == 1 else own[:-1]) if (len(own) > 3 and k % 2) else "foolib"
+                ev(p, "foreignInLibrary", "foreign", "inLibrary", [foreign], group="inlib")
         rng = S["ranges"].get(p["lib"])
         if "hedId" in dom[sec] and rng:
             ev(p, "hedIdRange", "below", "hedId", ["HED_%07d" % (rng[0] - 1)], num=rng[0] - 1)
